@@ -185,8 +185,7 @@ C08_Encoding(I, R, t) ==                      \* balance on, now <= pstart, t ha
 InNoDependency(I, t) == PrereqTasks(I, t) = {} /\ SuccTasks(I, t) = {}
 C08_WbsOrder(I, R) ==                         \* balance on: dependency-free leaves are served in WBS order
     \A a, b \in LeafSet(I) :
-        (a < b /\ InNoDependency(I, a) /\ InNoDependency(I, b) /\ ResOf(I, a) = ResOf(I, b)
-           /\ ~StartFixed(I, a) /\ ~StartFixed(I, b))
+        (a < b /\ InNoDependency(I, a) /\ InNoDependency(I, b) /\ ResOf(I, a) = ResOf(I, b))
         => \A i \in RowsOfTask(R, a), j \in RowsOfTask(R, b) : i < j
 
 ---------------------------------------------------------------------------
